@@ -5,12 +5,20 @@ sys.path.insert(0, os.environ.get("VERIF_REPO", "/repo"))
 import joblib
 
 
-def build(spec, rng):
+def build(spec, rng, pool=None):
+    if pool is None:
+        pool = {}                         # str / bytes objects already built for THIS value, by literal
     t = spec[0]
     if t == "lit":
         v = eval(spec[1])
-        if isinstance(v, (str, bytes)) and len(v) > 1 and rng.random() < 0.5:
-            v = v[:1] + v[1:]             # an equal but distinct object
+        if isinstance(v, (str, bytes)) and len(v) > 1:
+            # the same str / bytes OBJECT occurring several times in one value, or equal but distinct
+            # objects: the digest is a function of the value, not of the identity of its strings
+            if spec[1] in pool and rng.random() < 0.5:
+                return pool[spec[1]]
+            if rng.random() < 0.5:
+                v = v[:1] + v[1:]         # an equal but distinct object
+            pool[spec[1]] = v
         return v
     if t == "bigdict":
         ks = list(range(spec[1]))
@@ -24,13 +32,13 @@ def build(spec, rng):
     if t in ("set", "frozenset", "dict", "odict"):
         rng.shuffle(kids)                 # insertion order is part of the construction history
     if t == "list":
-        return [build(k, rng) for k in kids]
+        return [build(k, rng, pool) for k in kids]
     if t == "tuple":
-        return tuple(build(k, rng) for k in kids)
+        return tuple(build(k, rng, pool) for k in kids)
     if t == "set":
         s = set()
         for k in kids:
-            s.add(build(k, rng))
+            s.add(build(k, rng, pool))
         if rng.random() < 0.5:            # insert-and-delete extra keys: same value, other table layout
             for x in ("__tmp__", 12345, ("t",)):
                 s.add(x)
@@ -38,7 +46,7 @@ def build(spec, rng):
                 s.discard(x)
         return s
     if t == "frozenset":
-        return frozenset(build(k, rng) for k in kids)
+        return frozenset(build(k, rng, pool) for k in kids)
     if t in ("dict", "odict"):
         import collections
         d = {} if t == "dict" else collections.OrderedDict()
@@ -46,7 +54,7 @@ def build(spec, rng):
             for x in ("__tmp1__", "__tmp2__"):
                 d[x] = 0
         for k, v in kids:
-            d[build(k, rng)] = build(v, rng)
+            d[build(k, rng, pool)] = build(v, rng, pool)
         d.pop("__tmp1__", None); d.pop("__tmp2__", None)
         return d
     raise ValueError(t)
